@@ -22,6 +22,8 @@
 import Spydr.Common.Proto
 import Spydr.Verilog.Model
 import Spydr.Verilog.Spec
+import Spydr.Verilog.ModelElab
+import Spydr.Verilog.ModelText
 
 open Lean Spydr.Proto Spydr.Verilog
 
@@ -211,10 +213,253 @@ def handleBit (fn : String) (j : Json) : Except String Json := do
     pure (Json.mkObj [("order", ofNatList r.1), ("finished", Json.bool r.2), ("nodup", Json.bool (nodupB r.1))])
   | _ => throw s!"unknown fn {fn}"
 
+/-! ### whole-design elaboration -/
+open Spydr.Verilog.Elab in
+def dirOfJson (j : Json) : Except String (Option Dir) :=
+  match j with
+  | .null => .ok none
+  | .str "input" => .ok (some .inp)
+  | .str "output" => .ok (some .out)
+  | .str "inout" => .ok (some .inout)
+  | _ => .error "direction expected"
+
+def rngOfJson (j : Json) : Except String (Option (Int × Int)) :=
+  match j with
+  | .null => .ok none
+  | v => do
+    let a ← v.getArr?
+    if a.size != 2 then throw "range: [msb, lsb]"
+    let l ← a[0]!.getInt?
+    let r ← a[1]!.getInt?
+    pure (some (l, r))
+
+open Spydr.Verilog.Elab in
+def xatomOfJson (j : Json) : Except String XAtom := do
+  let a ← j.getArr?
+  let k ← (a[0]?.getD Json.null).getStr?
+  match k, a.size with
+  | "id", 2 => do let n ← a[1]!.getStr?; pure (.id n)
+  | "bit", 3 => do let n ← a[1]!.getStr?; let i ← a[2]!.getInt?; pure (.bit n i)
+  | "part", 4 => do let n ← a[1]!.getStr?; let l ← a[2]!.getInt?; let r ← a[3]!.getInt?; pure (.part n l r)
+  | "const", 2 => do let c ← a[1]!.getStr?; pure (.const c)
+  | _, _ => throw "atom expected"
+
+open Spydr.Verilog.Elab in
+def xexprOfJson (j : Json) : Except String XExpr :=
+  match j with
+  | .null => .ok .empty
+  | .arr _ => do let a ← xatomOfJson j; pure (.atom a)
+  | v => do
+    let c ← v.getObjVal? "cat"
+    let a ← c.getArr?
+    let as ← a.toList.mapM xatomOfJson
+    pure (.cat as)
+
+def attrsOfJson (j : Json) : Except String (List (String × Option String)) := do
+  let a ← j.getArr?
+  a.toList.mapM fun kv => do
+    let p ← kv.getArr?
+    if p.size != 2 then throw "attr: [k, v]"
+    let k ← p[0]!.getStr?
+    match p[1]! with
+    | .null => pure (k, none)
+    | v => do let x ← v.getStr?; pure (k, some x)
+
+def paramsOfJson (j : Json) : Except String (List (String × String)) := do
+  let a ← j.getArr?
+  a.toList.mapM fun kv => do
+    let p ← kv.getArr?
+    if p.size != 2 then throw "param: [k, v]"
+    let k ← p[0]!.getStr?
+    let v ← p[1]!.getStr?
+    pure (k, v)
+
+open Spydr.Verilog.Elab in
+def itemOfJson (j : Json) : Except String Item := do
+  let t ← getStr j "t"
+  match t with
+  | "port" =>
+    let d ← dirOfJson (← j.getObjVal? "dir")
+    let vt ← getOptStr j "vt"
+    let rng ← rngOfJson (← j.getObjVal? "rng")
+    let n ← getStr j "n"
+    match d with
+    | some d => pure (.portDecl d vt rng n)
+    | none => throw "port declaration needs a direction"
+  | "wire" =>
+    let ty ← getStr j "ty"
+    let rng ← rngOfJson (← j.getObjVal? "rng")
+    let n ← getStr j "n"
+    let ats ← attrsOfJson (← j.getObjVal? "attrs")
+    pure (.wireDecl ty rng n ats)
+  | "inst" =>
+    let m ← getStr j "mod"
+    let n ← getStr j "n"
+    let ps ← paramsOfJson (← j.getObjVal? "params")
+    let ats ← attrsOfJson (← j.getObjVal? "attrs")
+    let named ← getBool j "named"
+    let cs ← (← getArr j "conns").toList.mapM fun c => do
+      let p ← c.getArr?
+      if p.size != 2 then throw "conn: [port, expr]"
+      let pn ← match p[0]! with
+        | .null => pure none
+        | v => do let x ← v.getStr?; pure (some x)
+      let e ← xexprOfJson p[1]!
+      pure (pn, e)
+    pure (.inst m n ps ats named cs)
+  | "assign" =>
+    let l ← xatomOfJson (← j.getObjVal? "l")
+    let r ← xatomOfJson (← j.getObjVal? "r")
+    pure (.assign l r)
+  | _ => throw "item kind"
+
+open Spydr.Verilog.Elab in
+def moduleOfJson (j : Json) : Except String Elab.Module := do
+  let n ← getStr j "name"
+  let prim ← getBool j "prim"
+  let ats ← attrsOfJson (← j.getObjVal? "attrs")
+  let ps ← paramsOfJson (← j.getObjVal? "params")
+  let hs ← (← getArr j "header").toList.mapM fun h => do
+    let hn ← getStr h "n"
+    let d ← dirOfJson (← h.getObjVal? "dir")
+    let rng ← rngOfJson (← h.getObjVal? "rng")
+    let al ← match h.getObjVal? "alias" with
+      | .ok .null => pure none
+      | .ok v => do
+        let e ← xexprOfJson (← v.getObjVal? "e")
+        pure (some e)
+      | .error _ => pure none
+    pure (⟨hn, d, rng, al⟩ : HPort)
+  let its ← (← getArr j "items").toList.mapM itemOfJson
+  pure ⟨n, prim, ats, ps, hs, its⟩
+
+def ofAttrs (a : List (String × Option String)) : Json :=
+  ofList (fun (kv : String × Option String) => Json.arr #[Json.str kv.1, ofOpt Json.str kv.2]) a
+def ofParams (a : List (String × String)) : Json :=
+  ofList (fun (kv : String × String) => Json.arr #[Json.str kv.1, Json.str kv.2]) a
+
+open Spydr.Verilog.Elab in
+def dirName : Dir → String
+  | .inp => "IN" | .out => "OUT" | .inout => "INOUT" | .undef => "UNDEFINED"
+
+open Spydr.Verilog.Elab in
+def viewOfSt (s : St) : Json :=
+  let defJ (d : Def) : Json :=
+    let pinJ (p : Option Nat) : Json := match p with
+      | none => Json.null
+      | some w => match bitOf d w with
+        | some b => ofBit b
+        | none => Json.arr #[Json.str "?", ofInt (-1)]
+    Json.mkObj [("name", Json.str d.name), ("lib", ofOpt Json.str d.lib), ("primitive", Json.bool d.primitive),
+      ("params", ofParams d.params), ("attrs", ofOpt ofAttrs d.attrs),
+      ("ports", ofList (fun (p : Port) => Json.mkObj [("name", ofOpt Json.str p.name), ("dir", Json.str (dirName p.dir)),
+          ("lower", ofInt p.lower), ("width", ofNat p.pins.length), ("downto", Json.bool p.downto),
+          ("pins", ofList pinJ p.pins)]) d.ports),
+      ("cables", ofList (fun (c : Cable) => Json.mkObj [("name", Json.str c.name), ("lower", ofInt c.lower),
+          ("width", ofNat c.wires.length), ("downto", Json.bool c.downto), ("ctype", ofOpt Json.str c.ctype),
+          ("attrs", ofOpt ofAttrs c.attrs)]) d.cables),
+      ("insts", ofList (fun (i : Inst) =>
+          let rd := (s.find i.ref).getD default
+          let rows := (List.range rd.ports.length).map (fun k =>
+            let w := (rd.ports.getD k default).pins.length
+            let row := i.pins.getD k []
+            row ++ List.replicate (w - row.length) none)
+          Json.mkObj [("name", Json.str i.name), ("ref", Json.str i.ref), ("params", ofParams i.params),
+            ("attrs", ofOpt ofAttrs i.attrs), ("pins", ofList (ofList pinJ) rows)]) d.insts)]
+  Json.mkObj [("top", ofOpt Json.str s.top), ("defs", ofList defJ s.defs)]
+
+/-! ### text level -/
+def optAttrs (j : Json) (k : String) : Except String (Option (List (String × Option String))) :=
+  match j.getObjVal? k with
+  | .error _ => .ok none
+  | .ok .null => .ok none
+  | .ok v => do let a ← attrsOfJson v; pure (some a)
+
+open Spydr.Verilog.Text in
+def wnetOfJson (j : Json) : Except String WNet := do
+  let name ← getStr j "name"
+  let top ← getOptStr j "top"
+  let defs ← (← getArr j "defs").toList.mapM fun d => do
+    let dn ← getStr d "name"
+    let lib ← getStr d "lib"
+    let params ← match d.getObjVal? "params" with
+      | .ok .null => pure none
+      | .error _ => pure none
+      | .ok v => do let a ← attrsOfJson v; pure (some a)
+    let attrs ← optAttrs d "attrs"
+    let ports ← (← getArr d "ports").toList.mapM fun p => do
+      let pn ← getOptStr p "name"
+      let dir ← getStr p "dir"
+      let lower ← getInt p "lower"
+      let width ← getNat p "width"
+      let pins ← pvOfJson (← p.getObjVal? "pins")
+      let ats ← optAttrs p "attrs"
+      pure (⟨pn, dir, lower, width, pins, ats⟩ : WPort)
+    let cables ← (← getArr d "cables").toList.mapM fun c => do
+      let cn ← getStr c "name"
+      let lower ← getInt c "lower"
+      let width ← getNat c "width"
+      let ct ← getOptStr c "ctype"
+      let ats ← optAttrs c "attrs"
+      pure (⟨cn, lower, width, ct, ats⟩ : WCable)
+    let insts ← (← getArr d "insts").toList.mapM fun i => do
+      let iname ← getStr i "name"
+      let ref ← getStr i "ref"
+      let ps ← match i.getObjVal? "params" with
+        | .ok .null => pure none
+        | .error _ => pure none
+        | .ok v => do let a ← paramsOfJson v; pure (some a)
+      let ats ← optAttrs i "attrs"
+      let rows ← (← getArr i "pins").toList.mapM pvOfJson
+      pure (⟨iname, ref, ps, ats, rows⟩ : WInst)
+    pure (⟨dn, lib, params, attrs, ports, cables, insts⟩ : WDef)
+  pure ⟨name, top, defs⟩
+
+open Spydr.Verilog.Text in
+def handleText (fn : String) (j : Json) : Except String Json := do
+  match fn with
+  | "lex" =>
+    let t ← getStr j "text"
+    pure (Json.mkObj [("tokens", ofStrList (lexV t))])
+  | "compose" =>
+    let n ← wnetOfJson (← j.getObjVal? "net")
+    let o ← j.getObjVal? "opts"
+    let dl ← match o.getObjVal? "defList" with
+      | .ok .null => pure none
+      | .error _ => pure none
+      | .ok v => do let a ← v.getArr?; let l ← strList a; pure (some l)
+    let wb ← getBool o "writeBlackbox"
+    let dp ← getBool o "defparam"
+    match composeV n ⟨dl, wb, dp⟩ with
+    | .error e => pure (Json.mkObj [("ok", Json.bool false), ("raise", Json.str e)])
+    | .ok (txt, fin) =>
+      let toks := (lexV txt).filter (fun t => !isCommentTok t)
+      let want ← match j.getObjVal? "text" with
+        | .ok (.str t) => pure (some ((lexV t).filter (fun t => !isCommentTok t)))
+        | _ => pure none
+      pure (Json.mkObj [("ok", Json.bool true), ("finished", Json.bool fin), ("text", Json.str txt),
+        ("tokens", ofStrList toks),
+        ("same", match want with | some w => Json.bool (w == toks) | none => Json.null),
+        ("firstDiff", match want with
+          | some w => (match (List.range (max w.length toks.length)).find? (fun i => w[i]? != toks[i]?) with
+              | some i => Json.arr #[ofNat i, ofOpt Json.str w[i]?, ofOpt Json.str toks[i]?]
+              | none => Json.null)
+          | none => Json.null)])
+  | _ => throw s!"unknown fn {fn}"
+
 def handle (st : Unit) (j : Json) : Except String (Unit × Json) := do
   let fn ← getStr j "fn"
-  let r ← handleBit fn j
-  pure (st, r)
+  if fn == "lex" || fn == "compose" then
+    let r ← handleText fn j
+    pure (st, r)
+  else if fn == "elab" then
+    let ms ← (← getArr j "modules").toList.mapM moduleOfJson
+    match Spydr.Verilog.Elab.elabDesign ms with
+    | .ok s => pure (st, Json.mkObj [("ok", Json.bool true), ("view", viewOfSt s)])
+    | .error e => pure (st, Json.mkObj [("ok", Json.bool false), ("raise", Json.str e)])
+  else
+    let r ← handleBit fn j
+    pure (st, r)
 
 end Spydr.VerilogDrv
 
